@@ -283,3 +283,162 @@ def rand_transfer2(r, op, toks, with_pt=False):
     elif k < 7:
         acts = []
     return orb_pkt(op, amount, fwd, acts, denom=denom, src_chan=r.choice(SRC_CHANNELS), dst_chan=r.choice(CHANNELS))
+
+
+# ------------------------------------------------------------------------------------------ JSON mutations
+
+def _paths(doc, pre=()):
+    """all paths into a JSON document (dict keys / list indices)"""
+    yield pre
+    if isinstance(doc, dict):
+        for k, v in doc.items():
+            yield from _paths(v, pre + (k,))
+    elif isinstance(doc, list):
+        for i, v in enumerate(doc):
+            yield from _paths(v, pre + (i,))
+
+
+def _get(doc, path):
+    for p in path:
+        doc = doc[p]
+    return doc
+
+
+def _set(doc, path, val):
+    import copy
+    doc = copy.deepcopy(doc)
+    if not path:
+        return val
+    cur = doc
+    for p in path[:-1]:
+        cur = cur[p]
+    cur[path[-1]] = val
+    return doc
+
+
+def _del(doc, path):
+    import copy
+    doc = copy.deepcopy(doc)
+    cur = doc
+    for p in path[:-1]:
+        cur = cur[p]
+    del cur[path[-1]]
+    return doc
+
+
+WRONG = [None, 0, 1, -1, 1.5, 2 ** 70, True, "", "x", "0", "1", [], {}, [None], [1], {"a": 1}, "AAAA", "////", "PROTOCOL_IBC", 5, "5"]
+
+
+def mutations(doc, r=None, limit=None):
+    """single-point structural mutations of a JSON document, as JSON texts"""
+    out = []
+    paths = [p for p in _paths(doc) if p]
+    for path in paths:
+        for w in WRONG:
+            out.append(json.dumps(_set(doc, path, w), separators=(",", ":")))
+        out.append(json.dumps(_del(doc, path), separators=(",", ":")))
+        parent = _get(doc, path[:-1])
+        if isinstance(parent, dict):
+            k = path[-1]
+            # unknown sibling key, camelCase alias, duplicated key (textual)
+            out.append(json.dumps(_set(doc, path[:-1] + ("unknown_field",), 1), separators=(",", ":")))
+            out.append(json.dumps(_set(doc, path[:-1] + ("zzz",), None), separators=(",", ":")))
+            if "_" in str(k):
+                parts = str(k).split("_")
+                camel = parts[0] + "".join(x.capitalize() for x in parts[1:])
+                d2 = _del(doc, path)
+                out.append(json.dumps(_set(d2, path[:-1] + (camel,), _get(doc, path)), separators=(",", ":")))
+                out.append(json.dumps(_set(doc, path[:-1] + (camel,), _get(doc, path)), separators=(",", ":")))
+        if isinstance(parent, list):
+            # repeat the element, add a null element
+            import copy
+            d2 = copy.deepcopy(doc)
+            _get(d2, path[:-1]).append(copy.deepcopy(_get(doc, path)))
+            out.append(json.dumps(d2, separators=(",", ":")))
+            d3 = copy.deepcopy(doc)
+            _get(d3, path[:-1]).append(None)
+            out.append(json.dumps(d3, separators=(",", ":")))
+    # textual duplicates of every key at top of payload
+    base = json.dumps(doc, separators=(",", ":"))
+    out.append(base[:-1] + ",\"orbiter\":null}")
+    out.append(base[:-1] + ",\"orbiter\":{}}")
+    out.append("{\"orbiter\":null," + base[1:])
+    out.append(base + " ")
+    out.append(" " + base)
+    out.append(base + "x")
+    out.append(base + "{}")
+    out.append(base.replace("\"orbiter\"", "\"Orbiter\""))
+    out.append(base.replace("PROTOCOL_", "PROTOCOL\\u005f"))
+    out.append(base.replace("{\"orbiter\"", "{\"note\":1e999,\"orbiter\"", 1))
+    out.append(base.replace("{\"orbiter\"", "{\"note\":1e400,\"orbiter\"", 1)[: len(base) + 40])
+    if r is not None and limit is not None and len(out) > limit:
+        out = r.shuffle(out)[:limit]
+    return out
+
+
+def payload_shapes(toks):
+    """valid payload documents of every shape (python dicts)"""
+    tok = toks[0][0] if toks else b"\x01" * 32
+    fees = fee_action([(U[0], "b", 100), (U[1], "a", "7")])
+    shapes = [
+        {"orbiter": {"forwarding": cctp_fwd(domain=0), "pre_actions": [fees]}},
+        {"orbiter": {"forwarding": cctp_fwd(domain=1, caller=b"\x05" * 32, passthrough=b""), "pre_actions": []}},
+        {"orbiter": {"forwarding": int_fwd(U[2])}},
+        {"orbiter": {"forwarding": hyp_fwd(tok, domain=1, hook=b"\x04" * 32, meta="0xab", gas=7, fee=("uusdc", 1), passthrough=b""), "pre_actions": [fees]}},
+        {"orbiter": {"forwarding": hyp_fwd(tok, domain=1)}},
+    ]
+    return shapes
+
+
+def parse_lines_for(shapes, r, per_shape=None):
+    lines = []
+    for doc in shapes:
+        lines.append("pure parse " + hx(json.dumps(doc, separators=(",", ":"))))
+        for m in mutations(doc, r, per_shape):
+            lines.append("pure parse " + hx(m))
+    return lines
+
+
+EXTRA_MEMOS = [
+    "", " ", "{", "}", "null", "true", "1", "\"orbiter\"", "[]", "{}", "{\"orbiter\":1}", "{\"orbiter\":\"x\"}", "{\"orbiter\":[]}", "{\"orbiter\":true}",
+    "{\"orbiter\":{}}", "{\"orbiter\":{\"forwarding\":{}}}", "{\"orbiter\":{\"forwarding\":{\"protocol_id\":2}}}", "{\"orbiter\":{\"pre_actions\":[null]}}",
+    "{\"orbiter\":{\"pre_actions\":[{}],\"forwarding\":{\"protocol_id\":4,\"attributes\":{\"@type\":\"" + INT_URL + "\",\"recipient\":\"x\"}}}}",
+    "{\"orbiter\":{\"forwarding\":{\"protocol_id\":\"PROTOCOL_INTERNAL\",\"attributes\":{\"@type\":\"" + FEE_URL + "\",\"fees_info\":[]}}}}",
+    "{\"orbiter\":{\"forwarding\":{\"protocol_id\":\"PROTOCOL_INTERNAL\",\"attributes\":{\"@type\":\"/cosmos.bank.v1beta1.MsgSend\"}}}}",
+    "{\"orbiter\":{\"forwarding\":{\"protocol_id\":\"PROTOCOL_INTERNAL\",\"attributes\":{\"@type\":\"\"}}}}",
+    "{\"orbiter\":{\"forwarding\":{\"protocol_id\":\"PROTOCOL_INTERNAL\",\"attributes\":{\"@type\":null}}}}",
+    "{\"orbiter\":{\"forwarding\":{\"protocol_id\":\"PROTOCOL_INTERNAL\",\"attributes\":{\"recipient\":\"x\"}}}}",
+    "{\"orbiter\":{\"pre_actions\":[{\"id\":\"ACTION_FEE\",\"attributes\":{\"@type\":\"" + FEE_URL + "\",\"fees_info\":[null]}}],\"forwarding\":null}}",
+    "{\"orbiter\":{\"pre_actions\":[{\"id\":\"ACTION_FEE\",\"attributes\":{\"@type\":\"" + FEE_URL + "\",\"fees_info\":[{\"recipient\":\"a\",\"basis_points\":{\"value\":1},\"amount\":{\"value\":\"2\"}}]}}]}}",
+    "{\"orbiter\":{\"pre_actions\":[{\"id\":\"ACTION_FEE\",\"attributes\":{\"@type\":\"" + FEE_URL + "\",\"fees_info\":[{\"recipient\":\"a\",\"basis_points\":null}]}}]}}",
+    "{\"orbiter\":{\"pre_actions\":[{\"id\":\"ACTION_FEE\",\"attributes\":{\"@type\":\"" + FEE_URL + "\",\"fees_info\":[{\"recipient\":\"a\",\"basis_points\":{}}]}}]}}",
+    "{\"orbiter\":{\"pre_actions\":[{\"id\":\"ACTION_FEE\",\"attributes\":{\"@type\":\"" + FEE_URL + "\",\"fees_info\":[{\"recipient\":\"a\",\"basis_points\":{\"value\":\"7\"}}]}}]}}",
+    "{\"orbiter\":{\"pre_actions\":[{\"id\":\"ACTION_FEE\",\"attributes\":{\"@type\":\"" + FEE_URL + "\",\"fees_info\":[{\"recipient\":\"a\",\"basis_points\":{\"value\":\" 7 \"}}]}}]}}",
+    "{\"orbiter\":{\"pre_actions\":[{\"id\":\"ACTION_FEE\",\"attributes\":{\"@type\":\"" + FEE_URL + "\",\"fees_info\":[{\"recipient\":\"a\",\"basis_points\":{\"value\":\"null\"}}]}}]}}",
+    "{\"orbiter\":{\"pre_actions\":[{\"id\":\"ACTION_FEE\",\"attributes\":{\"@type\":\"" + FEE_URL + "\",\"fees_info\":[{\"recipient\":\"a\",\"basis_points\":{\"value\":4294967296}}]}}]}}",
+    "{\"orbiter\":{\"pre_actions\":[{\"id\":1},{\"id\":1}]}}", "{\"orbiter\":{\"pre_actions\":[{\"id\":\"1\"}]}}", "{\"orbiter\":{\"pre_actions\":[{\"id\":99}]}}",
+    "{\"orbiter\":{\"pre_actions\":[{\"id\":-1}]}}", "{\"orbiter\":{\"pre_actions\":[{\"id\":2147483648}]}}", "{\"orbiter\":{\"pre_actions\":null,\"forwarding\":null}}",
+    "{\"a\":1,\"orbiter\":{}}", "{\"orbiter\":{},\"orbiter\":{}}", "{\"orbiter\":{},\"orbiter\":null}", "﻿{\"orbiter\":{}}", "{\"orbiter\":{}}\n", "{\"orbiter\":{\"x\":1,\"y\":2}}",
+    "{\"orbiter\":{\"forwarding\":{\"protocol_id\":\"PROTOCOL_CCTP\",\"attributes\":{\"@type\":\"" + CCTP_URL + "\",\"mint_recipient\":[1,2,3]}}}}",
+    "{\"orbiter\":{\"forwarding\":{\"protocol_id\":\"PROTOCOL_CCTP\",\"attributes\":{\"@type\":\"" + CCTP_URL + "\",\"mint_recipient\":[1,null,256]}}}}",
+    "{\"orbiter\":{\"forwarding\":{\"protocol_id\":\"PROTOCOL_CCTP\",\"attributes\":{\"@type\":\"" + CCTP_URL + "\",\"mint_recipient\":\"AQ\\nID\"}}}}",
+    "{\"orbiter\":{\"forwarding\":{\"protocol_id\":\"PROTOCOL_CCTP\",\"attributes\":{\"@type\":\"" + CCTP_URL + "\",\"destination_domain\":\"5\",\"mint_recipient\":\"AQID\"}}}}",
+    "{\"orbiter\":{\"forwarding\":{\"protocol_id\":\"PROTOCOL_CCTP\",\"attributes\":{\"@type\":\"" + CCTP_URL + "\",\"destinationDomain\":5,\"destination_domain\":6,\"mint_recipient\":\"AQID\"}}}}",
+    "{\"orbiter\":{\"forwarding\":{\"protocol_id\":\"PROTOCOL_HYPERLANE\",\"attributes\":{\"@type\":\"" + HYP_URL + "\",\"gas_limit\":\"0x10\",\"max_fee\":{\"denom\":\"uusdc\",\"amount\":\"-1\"}}}}}",
+    "{\"orbiter\":{\"forwarding\":{\"protocol_id\":\"PROTOCOL_HYPERLANE\",\"attributes\":{\"@type\":\"" + HYP_URL + "\",\"gas_limit\":null}}}}",
+    "{\"orbiter\":{\"forwarding\":{\"protocol_id\":\"PROTOCOL_HYPERLANE\",\"attributes\":{\"@type\":\"" + HYP_URL + "\",\"gas_limit\":5}}}}",
+    "{\"orbiter\":{\"forwarding\":{\"protocol_id\":\"PROTOCOL_HYPERLANE\",\"attributes\":{\"@type\":\"" + HYP_URL + "\",\"max_fee\":null}}}}",
+    "{\"orbiter\":{\"forwarding\":{\"protocol_id\":\"PROTOCOL_HYPERLANE\",\"attributes\":{\"@type\":\"" + HYP_URL + "\",\"max_fee\":{\"amount\":\"1_000\"}}}}}",
+]
+
+
+def random_bytes_memos(r, n):
+    out = []
+    alphabet = "{}[]\":,0123456789.eE+-tfnul orbitefwdg_ps\\/é"
+    for _ in range(n):
+        k = r.below(3)
+        if k == 0:
+            out.append(r.bytes(r.range(0, 40)))
+        else:
+            out.append("".join(r.choice(alphabet) for _ in range(r.range(0, 60))).encode())
+    return out
